@@ -69,6 +69,10 @@ def hash_update(M, elems):
             M.update(b'np.ndarray')
             M.update(pickle.dumps(e.dtype))
             M.update(pickle.dumps(e.shape))
+            if e.dtype.hasobject:
+                # the buffer of an object array holds pointers, not values
+                hash_update(M, enumerate(e.ravel().tolist()))
+                continue
             try:
                 buffer = e.data
                 M.update(buffer)
